@@ -147,6 +147,18 @@ static std::string read_tail(const std::string &path, size_t max)
 
 static std::string crash_signature(const std::string &err)
 {
+  {
+    // ThreadSanitizer: the SUMMARY line names the racing source location
+    size_t p = err.find("SUMMARY: ThreadSanitizer: ");
+    if (p != std::string::npos) {
+      size_t e = err.find('\n', p);
+      std::string line = err.substr(p + 9, (e == std::string::npos ? err.size() : e) - p - 9);
+      size_t in = line.find(" in ");
+      if (in != std::string::npos) line = line.substr(0, in);
+      if (line.size() > 140) line = line.substr(0, 140);
+      return line;
+    }
+  }
   const char *keys[] = { "WARNING: ThreadSanitizer: ", "ERROR: AddressSanitizer: ", "ERROR: LeakSanitizer: ",
                          "runtime error: ", "Assertion `" };
   for (const char *k : keys) {
@@ -270,7 +282,8 @@ static CaseResult run_isolated_once(const std::vector<uint32_t> &words, long swe
     return r;
   }
   // Crash, sanitizer abort or assert inside the case process.
-  std::string err = read_tail(errfile, 6000);
+  std::string err = read_tail(errfile, 200000);
+  if (err.size() > 9000) err = err.substr(0, 4500) + "\n[...]\n" + err.substr(err.size() - 4000);
   std::string cs = crash_signature(err);
   r = CaseResult();
   r.kind = CaseResult::FAIL;
